@@ -101,6 +101,14 @@ EXTRA = [
          "tsplit_const", "dmetric3p1_zero", "ddmetric3p1_zero", "riemannDown_zero", "JetC.Static.dtgam", "JetC.Static.ddtgam",
          "JetC.Static.d4", "JetC.Static.dd4gam", "JetC.Static.dg4", "JetC.Static.ddg4", "JetC.Static.riem4",
          "JetC.Static.ricci")]),
+    # extension round 3: hypothesis hRic (R~_ij + R^phi_ij is the Ricci tensor of gamma) discharged by Props/C05d
+    ("AurelVerif.Props.C06f",
+     ["AurelVerif.C06." + t for t in (
+         "bssnokRicciHyp_of_deriv", "ricSum_is_ricci", "dtAdown3_bssnok_is_dt_conformal_of_einstein_noRic",
+         "dtAdown3_bssnok_vacuum_is_dt_conformal_of_einstein_noRic", "dtAdown3_bssnok_is_dt_of_einstein_noRic")]
+     + ["AurelVerif.C05." + t for t in ("ricci_bssnok_split", "s_Ricci_down3_bssnok_is_ricci", "ricciConformal_is_ricci")]),
+    ("AurelVerif.Props.C06fEx",
+     ["AurelVerif.C06." + t for t in ("exB_bssnokRicciHyp", "exB_ricSum")]),
 ]
 NEEDED = ["Hamiltonian", "Momentumup3", "Momentumx", "Momentumy", "Momentumz", "dtKtrace", "dtphi_bssnok", "dtgammaup3",
           "dtgammadown3_bssnok", "dtAdown3_bssnok", "dts_Gamma_bssnok", "rho_n", "fluxup3_n", "Stressup3_n",
@@ -119,7 +127,9 @@ LEAN_FILES = ["AurelVerif/Props/C06.lean", "AurelVerif/Lemmas/C06Deriv.lean", "A
               "AurelVerif/Lemmas/C06AdmCode.lean", "AurelVerif/Lemmas/C06Static.lean", "AurelVerif/Spec/Riemann4Jet.lean",
               "AurelVerif/Props/C04b.lean", "AurelVerif/Lemmas/C04Jet2.lean", "AurelVerif/Lemmas/C04Gauss.lean",
               "AurelVerif/Lemmas/C04Codazzi.lean", "AurelVerif/Lemmas/C04Mainardi.lean", "AurelVerif/Lemmas/C04RiemSym.lean",
-              "AurelVerif/Lemmas/C04CurvCode.lean", "AurelVerif/Lemmas/C04Jet2Deriv.lean"]
+              "AurelVerif/Lemmas/C04CurvCode.lean", "AurelVerif/Lemmas/C04Jet2Deriv.lean",
+              "AurelVerif/Props/C06f.lean", "AurelVerif/Props/C06fEx.lean", "AurelVerif/Props/C05d.lean", "AurelVerif/Props/C05dEx.lean",
+              "AurelVerif/Lemmas/C05Bssn.lean", "AurelVerif/Lemmas/C05BssnAlg.lean"]
 
 KAPPA = 8 * np.pi
 PRIMS = ["al", "b0", "b1", "b2", "g00", "g01", "g02", "g11", "g12", "g22"]
@@ -628,7 +638,11 @@ def run(ctx):
         "equations, the pair antisymmetries, the ADM evolution equation of K_ij, the Hamiltonian and the momentum constraint are no longer "
         "assumptions: Props/C06e derives them, for exact differentiation (jets as symbols: Layer B), from Einstein's equations for the textbook "
         "Riemann tensor (Landau-Lifshitz 92.1) of the 4-metric assembled from (alpha, beta, gamma), whose time derivatives are K_ij (kinematic "
-        "relation), dtalpha, dtbetaup3 and universally quantified second time derivatives.]",
+        "relation), dtalpha, dtbetaup3 and universally quantified second time derivatives.] [Third extension round, Props/C06f: hRic is no longer "
+        "an assumption either - the theorems dtAdown3_bssnok_*_of_einstein_noRic replace it by BssnokRicciHyp (cached BSSNOK entries produced by "
+        "the code's formulas, psi != 0, and the Layer-B operator instances ProdRuleInv / ConfRules / ConfChain / BssnRules of Props/C05b, C05d, "
+        "all derived from Deriv + DComm, psi^12 = det gamma and d(logF psi) psi = d psi: bssnokRicciHyp_of_deriv), using C05's theorem "
+        "s_Ricci_down3_bssnok + s_Ricci_down3_phi = s_Ricci_down3.]",
         "Hypotheses that REMAIN in the '..._of_einstein' / '..._textbook' theorems of Props/C06e, all stated there: CurvHyp (assembled metric, "
         "det gamma != 0, gamma_ij and K_ij symmetric, cached connection torsion-free and metric compatible, gammaup3 the inverse, alpha != 0, "
         "2 != 0, commuting difference operators, s_Riemann_down3 = the textbook 3-Riemann tensor, which is property C05's theorem); the cached "
@@ -722,7 +736,13 @@ MANIFEST = {
             "metric-compatible torsion-free cached connection, gammaup3 = inverse, alpha != 0, commuting difference operators, s_Riemann_down3 = "
             "textbook 3-Riemann = C05's theorem), cached entries produced by the code's formulas, s_Ricci_down3 = contraction of s_Riemann_down3, "
             "for the momentum constraint D_c gamma^ab = 0 + product rule, the kinematic relation (definition of K_ij), and for dtAdown3_bssnok "
-            "'R~_ij + R^phi_ij is the Ricci tensor of gamma' (Alcubierre 2.8.16) which is STILL NOT PROVEN. The older theorems (C06, C06b-d) with "
+            "'R~_ij + R^phi_ij is the Ricci tensor of gamma' (Alcubierre 2.8.16), which Props/C06f (third extension round) DISCHARGES with "
+            "property C05's new theorem ricci_bssnok_split (Props/C05d: the code's (2.8.17) expression is the Ricci tensor of the unit-determinant "
+            "conformal metric, and R~_ij + R^phi_ij equals the direct s_Ricci_down3): the theorems dtAdown3_bssnok_is_dt_conformal_of_einstein_noRic, "
+            "..._vacuum_..._noRic, dtAdown3_bssnok_is_dt_of_einstein_noRic carry BssnokRicciHyp (cached BSSNOK entries = the code's formulas, psi != 0, Layer-B "
+            "operator instances derived from Deriv + DComm + psi^12 = det gamma + d(logF psi) psi = d psi) instead of hRic; non-vacuity of "
+            "BssnokRicciHyp at a curved unit-determinant point with a non-zero operator (Props/C06fEx, R~_xx + R^phi_xx = -396), not jointly with "
+            "the on-shell points of Props/C06eEx. The older theorems (C06, C06b-d) with "
             "the ADM equation / constraints / Gauss-Codazzi as hypotheses are kept. All of this is additionally TESTED by the sympy "
             "oracle (random smooth 4-metrics in a random gauge with T := (G + Lambda g)/kappa, and a moving Kerr-Schild vacuum solution; constraints "
             "-> 0 and each dt-key -> exact d/dt at two resolutions, fd_order 4 and 6). Non-vacuity: concrete rational instances next to each theorem "
